@@ -793,6 +793,10 @@ impl<'a> ParseState<'a, &'a str> {
                 c => return self.err(&format!("在解析浮点序列时出现无效字符{c:?}")),
             }
         }
+        // 缓冲区中仍有未存入的数值字符（环境已尽/数值无效）⇒报错，而非静默丢弃
+        if !value_buffer.is_empty() {
+            return self.err(&format!("数值序列中的{value_buffer:?}未能存入"));
+        }
         // 返回最终结果
         Ok((result, i /* 计数已在跳出时增加 */))
     }
